@@ -13,6 +13,7 @@ import (
 	"sort"
 
 	"github.com/vektra/mockery/v3/template"
+	"golang.org/x/tools/go/packages"
 )
 
 type op struct {
@@ -23,9 +24,11 @@ type op struct {
 }
 
 type tcase struct {
-	InPkg bool   `json:"inpkg"`
-	Dst   string `json:"dst"`
-	Ops   []op   `json:"ops"`
+	InPkg   bool   `json:"inpkg"`
+	Dst     string `json:"dst"`
+	SrcPath string `json:"srcpath,omitempty"` // source package of the registry ("" = none)
+	SrcName string `json:"srcname,omitempty"`
+	Ops     []op   `json:"ops"`
 }
 
 func main() {
@@ -70,7 +73,11 @@ func main() {
 				emit(map[string]any{"op": "panic", "case": ci, "msg": fmt.Sprint(r)})
 			}
 		}()
-		reg, err := template.NewRegistry(nil, c.Dst, c.InPkg)
+		var src *packages.Package
+		if c.SrcPath != "" {
+			src = &packages.Package{PkgPath: c.SrcPath, Name: c.SrcName}
+		}
+		reg, err := template.NewRegistry(src, c.Dst, c.InPkg)
 		if err != nil {
 			panic(err)
 		}
